@@ -32,6 +32,11 @@ def items(tier):
         if any(k_ in c.label for k_ in ("floor", "argmax", "abs and sign", "relu", "value-dependent")):
             out.append(("vjp", c))
             out.append(("jvp", c))
+    # arguments registered as non-differentiable (rule None) get an exact zero OF THE ARGUMENT'S SPACE
+    for c in grid.real_grid("quick", families=("shape",)):
+        if c.prim == "where" and "condition" in c.label:
+            out.append(("vjp", c))
+            out.append(("structure", c))
     for c in grid.nested_grid(tier):
         if "independent of ITS" in c.label or "piecewise constant in ITS" in c.label or "outer-only" in c.label:
             out.append(("vjp", c))
@@ -57,6 +62,8 @@ def check(it, tier):
         o.status, o.detail = "inconclusive", "no argument template for this member of nograd_functions"
     elif it[0] == "zero":
         o = checks_a.check_zero(it[1], tier)
+    elif it[0] == "structure":
+        o = checks_a.check_structure(it[1], tier)
     elif it[0] == "vjp":
         o = checks_a.check_vjp(it[1], tier)
     else:
